@@ -127,6 +127,17 @@ def rule_compact(ctx):
             break
     if sel is None:
         raise AnalysisError("_create_return: the selection output[name] = dataset.isel(collocation=...) was not found")
+    def _as_list_display(t_):
+        """(a, b)[i] and [a, b][i] select alike"""
+        try:
+            e_ = ast.parse(t_, mode="eval").body
+        except SyntaxError:
+            return t_
+        for n_ in ast.walk(e_):
+            if isinstance(n_, ast.Subscript) and isinstance(n_.value, ast.Tuple):
+                n_.value = ast.List(elts=n_.value.elts, ctx=ast.Load())
+        return ast.unparse(e_)
+    sel = (sel[0], _as_list_display(sel[1]), _as_list_display(sel[2])) + tuple(sel[3:])
     ctx.ob("_create_return.order", sel[2] == DS and sel[1] == NM, "output[%s] = %s.isel(...)" % (sel[1], sel[2]),
            "[primary, secondary] paired with [primary_name, secondary_name]", node=lp, func=f)
     oks = sel[3] == UEX
